@@ -11,3 +11,35 @@ package types
 //@
 //@ extern MustUnmarshalConsensusState(cdc, bz) (result)
 //@   ensures dec: result == consDecode(str(bz)) && result != nil
+//@
+//@ spec csEncode(c: obj): str
+//@ spec consEncode(c: obj): str
+//@ spec unpackCS(a: obj): obj
+//@ spec unpackCons(a: obj): obj
+//@ spec unpackHeader(a: obj): obj
+//@ spec headerEncode(h: obj): str
+//@
+//@ extern MustMarshalClientState(cdc, clientState) (result)
+//@   ensures enc: result == bytes(csEncode(clientState)) && result != nil && csDecode(csEncode(clientState)) == clientState
+//@
+//@ extern MustMarshalConsensusState(cdc, consensusState) (result)
+//@   ensures enc: result == bytes(consEncode(consensusState)) && result != nil && consDecode(consEncode(consensusState)) == consensusState
+//@
+//@ extern MustMarshalHeader(cdc, header) (result)
+//@   ensures enc: result == bytes(headerEncode(header)) && result != nil
+//@
+//@ extern UnpackClientState(any) (cs, err)
+//@   ensures ok: err == nil ==> cs == unpackCS(any) && cs != nil
+//@
+//@ extern UnpackConsensusState(any) (cs, err)
+//@   ensures ok: err == nil ==> cs == unpackCons(any) && cs != nil
+//@
+//@ extern UnpackHeader(any) (h, err)
+//@   ensures ok: err == nil ==> h == unpackHeader(any) && h != nil
+//@
+//@ spec decodesCons(b: str): bool
+//@ spec decodesCS(b: str): bool
+//@ extern UnmarshalConsensusState(cdc, bz) (cs, err)
+//@   ensures dec: (err == nil <==> decodesCons(str(bz))) && (err == nil ==> cs == consDecode(str(bz)) && cs != nil)
+//@ extern UnmarshalClientState(cdc, bz) (cs, err)
+//@   ensures dec: (err == nil <==> decodesCS(str(bz))) && (err == nil ==> cs == csDecode(str(bz)) && cs != nil)
